@@ -21,12 +21,11 @@ theorem expectedField_of_lookup {s : Spec} {v : Bytes} {fid ty : Nat}
   unfold expectedField
   rw [h]
 
-/-- what `wfField` says once the element's type is known -/
+/-- what `wfField` says once the element is known to be in the information model -/
 theorem wfField_of_lookup {s : Spec} {v : VVal} {fid ty : Nat}
     (h : lookupElem s.ent s.id = some (fid, ty)) (hw : Wire.Ipfix.wfField s v = true) :
     if s.len = 65535 then
-      (ty = tString ∨ ty = tOctets) ∧
-        (if v.long = true then v.octets.length < 65536 else v.octets.length < 255)
+      (if v.long = true then v.octets.length < 65536 else v.octets.length < 255)
     else v.octets.length = s.len := by
   unfold Wire.Ipfix.wfField at hw
   rw [h] at hw
@@ -34,11 +33,9 @@ theorem wfField_of_lookup {s : Spec} {v : VVal} {fid ty : Nat}
   split at hw
   · rename_i h1
     rw [if_pos h1]
-    simp only [Bool.and_eq_true, Bool.or_eq_true, beq_iff_eq] at hw
-    refine ⟨hw.1, ?_⟩
     split at hw <;> rename_i h2
-    · rw [if_pos h2]; simpa using hw.2
-    · rw [if_neg h2]; simpa using hw.2
+    · rw [if_pos h2]; simpa using hw
+    · rw [if_neg h2]; simpa using hw
   · rename_i h1
     rw [if_neg h1]
     simpa using hw
@@ -66,14 +63,14 @@ theorem encodeField_eq (s : Spec) (v : VVal) :
 theorem dataLen_roundtrip {s : Spec} {v : VVal} {fid ty : Nat}
     (h : lookupElem s.ent s.id = some (fid, ty)) (hw : Wire.Ipfix.wfField s v = true)
     (tail : Bytes) (c : Nat) :
-    dataLen ⟨prefixOf s v ++ tail, c⟩ s.len ty =
+    dataLen ⟨prefixOf s v ++ tail, c⟩ s.len =
       (.ok v.octets.length, ⟨tail, c + (prefixOf s v).length⟩) := by
   have hf := wfField_of_lookup h hw
   unfold dataLen prefixOf
   by_cases h1 : s.len = 65535
   · rw [if_pos h1] at hf
-    obtain ⟨hty, hlen⟩ := hf
-    rw [if_pos ⟨hty, h1⟩, if_pos h1]
+    have hlen := hf
+    rw [if_pos h1, if_pos h1]
     by_cases h2 : v.long = true
     · rw [if_pos h2] at hlen
       rw [if_pos h2]
@@ -90,7 +87,7 @@ theorem dataLen_roundtrip {s : Spec} {v : VVal} {fid ty : Nat}
       have : ¬ v.octets.length = 255 := by omega
       simp [this]
   · rw [if_neg h1] at hf
-    rw [if_neg (fun hh => h1 hh.2), if_neg h1]
+    rw [if_neg h1, if_neg h1]
     simp [hf]
 
 /-- the field loop reads back a conforming list of values -/
